@@ -371,7 +371,10 @@ def _stack(ctx, callbacks=2, reset_waiter=False):
     gw = Obj(gw_cls(ctx), {"_transport": ash, "_reset_future": fut("rf") if reset_waiter else None, "_startup_reset_future": None, "_connection_done_future": None,
                            "_connected_future": None}, tag="gw")
     ez = Obj(repo.cls(EZ, "EZSP"), {"_gw": gw, "_callbacks": {i: Sym(f"cb{i}") for i in range(callbacks)}, "_ezsp_event": Obj(TypeRef("asyncio.Event"), {}, tag="event"),
-                                   "_config": Sym("config"), "_protocol": Sym("protocol")}, tag="ezsp")
+                                   "_config": Sym("config")}, tag="ezsp")
+    # the installed handler, with what an earlier timed-out command leaves behind: its (cancelled, hence done) future is still registered
+    ez.fields["_protocol"] = self_obj(repo.cls("bellows.ezsp.v8", "EZSPv8"), {"_awaiting": {7: (0, {}, fut("stalecmd"))}, "_seq": 9, "_gw": gw,
+                                                                            "_handle_callback": Sym("handle_callback")}, tag="protocol")
     ash.fields["_ezsp_protocol"] = gw
     gw.fields["_application"] = ez
     return ash, gw, ez, tr
@@ -381,7 +384,8 @@ def _stack_inline(g, aw):
     if g.is_async or g.name in ("_write_frame",):
         return False
     # the three wired classes and the module-level helpers of their modules
-    return (g.cls is not None and g.cls.name in ("AshProtocol", "Gateway", "EZSP")) or (g.cls is None and g.mod in (ASH, "bellows.uart", EZ))
+    return (g.cls is not None and (g.cls.name in ("AshProtocol", "Gateway", "EZSP", "ProtocolHandler") or g.cls.name.startswith("EZSPv"))) or \
+        (g.cls is None and g.mod in (ASH, "bellows.uart", EZ, "bellows.ezsp.protocol"))
 
 
 @rule("R10.3", ["C10"], "T-FLOW", floor=10)
@@ -416,7 +420,7 @@ def r10_3(ctx):
                 continue
             # "done": a host-requested reset has just been acknowledged - its future is completed but the done-callback that
             # clears the attribute has not run yet (same event-loop turn, e.g. RSTACK and ERROR frame in one read)
-            px = PX(repo, models=fut_models({"rf"} if waiter == "done" else set()) + [("*.is_closing", lambda px_, t, a, k, fr: False)], inline=_stack_inline, max_depth=8)
+            px = PX(repo, models=fut_models({"rf", "stalecmd"} if waiter == "done" else {"stalecmd"}) + [("*.is_closing", lambda px_, t, a, k, fr: False)], inline=_stack_inline, max_depth=8)
             holder = {}
 
             def entry():
